@@ -226,6 +226,8 @@ extend("C01", "a failed resolution carries no data: DNSHandler.handle, with the 
 
 extend("C12", "the alias chase on cache write-back (Cache.additionalAnswer over scripted follow-up responses): never-ending chains and loops back to the question, to an earlier target or to itself, in any letter case, end after a bounded number of follow-up questions with a message; and the completed answer claims AD only if the answer it started from and every follow-up response it merged were authenticated (shared with C01).")
 
+extend("C10", "chain rebinding: Chain.Reset / ResetWire from an arbitrary left-over state (written or not, held message / wire lease, rcode, internal and direct-pack marks, a writer still wrapped by a middleware, cancelled or mid-chain, inline-only / handoff / replay marks, a meta with cut bound and ledgers, a pending detach cleanup) yields the chain's own writer bound to the new client, unwritten and empty, the new request, fresh marks and meta, the previous cleanup run once - and the first write reaches the new client only.")
+
 NA_REASON = "no check registered yet: the solver-based harness for this property is still being built in this session (see DESIGN.md §5 for the plan)"
 def main():
     props = [json.loads(l) for l in open(os.path.join(ROOT, "properties.jsonl"))]
